@@ -6,6 +6,18 @@
 
 namespace smt
 {
+#if defined(PSTLAB_ORATIO_VERIF) && defined(PSTLAB_ORATIO_VERIF_ORDERED)
+    // verification hook: the rows watching a variable in ascending order of their basic variable (the iteration order of
+    // the unordered_set depends on heap addresses; the model of /verif visits the rows in this order)..
+    static std::vector<row *> verif_sorted(const std::unordered_set<row *> &rs)
+    {
+        std::vector<row *> v(rs.cbegin(), rs.cend());
+        std::sort(v.begin(), v.end(), [](row *const &a, row *const &b)
+                  { return a->get_basic_var() < b->get_basic_var(); });
+        return v;
+    }
+#endif
+
     SMT_EXPORT lra_theory::lra_theory(sat_core &sat) : theory(sat) {}
     SMT_EXPORT lra_theory::lra_theory(sat_core &sat, const lra_theory &orig) : theory(sat), c_bounds(orig.c_bounds), vals(orig.vals), exprs(orig.exprs), s_asrts(orig.s_asrts), layers(orig.layers), listening(orig.listening)
     {
@@ -344,7 +356,11 @@ namespace smt
                 if (!c->propagate_lb(x_i))
                     return false;
             // bound propagation..
+#if defined(PSTLAB_ORATIO_VERIF) && defined(PSTLAB_ORATIO_VERIF_ORDERED)
+            for (const auto &c : verif_sorted(t_watches[x_i]))
+#else
             for (const auto &c : t_watches[x_i])
+#endif
                 if (!c->propagate_lb(x_i))
                     return false;
 
@@ -378,7 +394,11 @@ namespace smt
                 if (!c->propagate_ub(x_i))
                     return false;
             // bound propagation..
+#if defined(PSTLAB_ORATIO_VERIF) && defined(PSTLAB_ORATIO_VERIF_ORDERED)
+            for (const auto &c : verif_sorted(t_watches[x_i]))
+#else
             for (const auto &c : t_watches[x_i])
+#endif
                 if (!c->propagate_ub(x_i))
                     return false;
 
